@@ -6,7 +6,7 @@ the model's (Properties/C07.lean proves the iff for the model's routes)."""
 from __future__ import annotations
 
 from .. import wire, gen, common, routes
-from ..core import call, sm, X, Report, write_evidence
+from ..core import call, sm, X, Report, write_evidence, Batch
 from ..engine import NumCase, judge_numeric
 from . import c02
 
@@ -95,7 +95,14 @@ def check_cases(cases: list[dict], rep: Report, known: dict) -> None:
             if undefined and not raised:
                 rep.violation(f"{r} returned {impl!r} at a point where the expression is undefined", nc.info)
             elif not undefined and raised:
-                if r in routes.EARLY and k1_explains(c, r, p):
+                vb = Batch()
+                ii = [vb.ask(f"F{k} " + nc.suffix) for k in (1, 2, 3)]
+                vb.run()
+                if any(vb[i].split(" ")[0] != nc.info["model_F0"].split(" ")[0] for i in ii):
+                    # the derivative's own guard was decided on a value that rounding (e.g. the
+                    # underflow of x*x) can flip: an intermediate left the double range
+                    rep.skip("rounding-ambiguous")
+                elif r in routes.EARLY and k1_explains(c, r, p):
                     rep.known("K1", "early route raises DomainError on a defined point: simplified derivative has a smaller domain after the even-root-of-even-power rewrite",
                               {"e": c["e"], "x": c["x"], "p": c["p"], "route": r})
                 else:
